@@ -56,3 +56,9 @@ def c05_param_backslash_injection(case, observed, expected):
     if "payload" in case:
         return bool(case.get("param_backslash"))
     return bool(case.get("impl_equal")) and any(92 in x for x in _pvals(case))
+
+
+# ---------------------------------------------------------------- C20
+def c20_pytz_custom_tz_copy(case, observed, expected):
+    return (case.get("provider") == "pytz" and case.get("custom_tz") and case.get("how") in ("deepcopy", "pickle")
+            and case.get("exc") == "UnknownTimeZoneError")
